@@ -46,7 +46,7 @@ def competitor_scenario(r, coin="bitcoin", callback="csvdump", T=None, kinds=Non
         extra = [K.Tx([(GC.rb(r, 32), 0, b"\x01\x01", 0xffffffff)], [(r.randrange(10**9), GC.spk(r, coin, "p2pkh"))]) for _ in range(r.randrange(0, 2))]
         return K.Block([cb] + extra, prev=prev, time=r.randrange(1, 1 << 31), nonce=r.randrange(1 << 32))
 
-    kinds = kinds or ["header-only", "stale", "failed", "failed-child", "reorged", "stale-above", "failed-above", "header-above", "foreign-keys", "invalidated", "invalidated"]
+    kinds = kinds or ["header-only", "stale", "failed", "failed-child", "reorged", "stale-above", "failed-above", "header-above", "foreign-keys", "invalidated", "invalidated", "header-branch", "header-branch"]
     n_comp = r.randrange(1, 6)
     for _ in range(n_comp):
         kind = r.choice(kinds)
@@ -70,7 +70,7 @@ def competitor_scenario(r, coin="bitcoin", callback="csvdump", T=None, kinds=Non
             prev = active[min(h, T + 1) - 1].hash()
             b = grind(mkblock(prev, h), r.random() < 0.7, active[min(h, T)].hash(), r)
             with_data = r.random() < 0.7
-            fail = K.FAILED_VALID if kind != "failed-child" else K.FAILED_CHILD
+            fail = (K.FAILED_VALID if kind != "failed-child" else K.FAILED_CHILD) if r.random() < 0.8 else (K.FAILED_VALID | K.FAILED_CHILD)
             st = r.choice([K.VALID_TRANSACTIONS, K.VALID_TREE]) | fail | (K.HAVE_DATA if with_data else 0) | (K.HAVE_UNDO if with_data and r.random() < 0.3 else 0)
             off = store(b) if with_data else 0
             s.kvs.append(K.record(b.hash(), h, st, len(b.txs), comp_file_no, off, b.header(), undo=5))
@@ -85,7 +85,7 @@ def competitor_scenario(r, coin="bitcoin", callback="csvdump", T=None, kinds=Non
                 h = fork + 1 + j
                 b = grind(mkblock(prev, h), r.random() < 0.8, active[min(h, T)].hash(), r)
                 off = store(b)
-                st = K.ACTIVE | (K.FAILED_VALID if j == 0 else K.FAILED_CHILD)
+                st = K.ACTIVE | ((K.FAILED_VALID if j == 0 else K.FAILED_CHILD) if r.random() < 0.85 else (K.FAILED_VALID | K.FAILED_CHILD))
                 s.kvs.append(K.record(b.hash(), h, st, len(b.txs), comp_file_no, off, b.header(), undo=11))
                 prev = b.hash()
             notes.append((kind, fork, length))
@@ -102,6 +102,23 @@ def competitor_scenario(r, coin="bitcoin", callback="csvdump", T=None, kinds=Non
                 comp_heights.append(h)
                 prev = b.hash()
             notes.append((kind, fork, length))
+        elif kind == "header-branch" and T >= 2:
+            # a chain of header-only records (no data) that forks BELOW the active tip and reaches ABOVE it (headers-first sync of a
+            # competing branch); optionally its lower part is a once-active, validated branch with data
+            fork = r.randrange(0, T)
+            top = T + r.randrange(1, 4)
+            validated_part = r.randrange(0, max(1, T - fork)) if r.random() < 0.4 else 0
+            prev = active[fork].hash()
+            for h in range(fork + 1, top + 1):
+                b = grind(mkblock(prev, h), r.random() < 0.7, active[min(h, T)].hash(), r)
+                if h - fork <= validated_part and h < T:
+                    off = store(b)
+                    s.kvs.append(K.record(b.hash(), h, K.ACTIVE, len(b.txs), comp_file_no, off, b.header(), undo=9))
+                    comp_heights.append(h)
+                else:
+                    s.kvs.append(K.record(b.hash(), h, r.choice([K.VALID_HEADER, K.VALID_TREE]), 0, 0, 0, b.header()))
+                prev = b.hash()
+            notes.append((kind, fork, top))
         elif kind == "foreign-keys":
             s.kvs.append((b"f" + struct.pack("<I", r.randrange(10)), GC.rb(r, 20)))
             s.kvs.append((b"l", struct.pack("<I", 3)))
